@@ -51,7 +51,9 @@ type layoutCtx struct {
 	// alias: a parameter of a folded helper stands for the caller's variable, a caller's variable for the
 	// helper's result
 	alias map[types.Object]types.Object
-	depth int
+	// exprAlias: a parameter (or the receiver) of a folded encoder helper stands for the caller's expression
+	exprAlias map[types.Object]ast.Expr
+	depth     int
 }
 
 // valueFail records a finding about the value a field receives, not about where the bytes are read: the
@@ -129,6 +131,15 @@ func (lc *layoutCtx) obj(e ast.Expr) types.Object {
 
 // fieldOfRecv: e is recv.F or recv.X.F (X embedded path allowed for p.Header.F): returns "F".
 func (lc *layoutCtx) fieldOfRecv(e ast.Expr) (string, bool) {
+	if id, isId := unparen(e).(*ast.Ident); isId && lc.exprAlias != nil {
+		o := lc.info.Uses[id]
+		if o == nil {
+			o = lc.info.Defs[id]
+		}
+		if x, ok := lc.exprAlias[o]; ok {
+			return lc.fieldOfRecv(x)
+		}
+	}
 	sel, ok := e.(*ast.SelectorExpr)
 	if !ok {
 		return "", false
@@ -596,6 +607,9 @@ func (lc *layoutCtx) encodeAssign(s *ast.AssignStmt, out *[]string, positional m
 	// buf = append(buf, ...) / buf = helper(buf, E)
 	if len(s.Lhs) == 1 && len(s.Rhs) == 1 && lc.buf != nil && lc.obj(s.Lhs[0]) == lc.buf {
 		c, ok := s.Rhs[0].(*ast.CallExpr)
+		if ok && lc.foldEncoderHelper(s, c, out, positional) {
+			return
+		}
 		if !ok || len(c.Args) < 2 || lc.obj(c.Args[0]) != lc.buf {
 			lc.fail(s, "the buffer is reassigned from something other than append(buf, ...)")
 			return
@@ -648,6 +662,114 @@ func (lc *layoutCtx) encodeAssign(s *ast.AssignStmt, out *[]string, positional m
 	}
 }
 
+// foldEncoderHelper: `buf = recv.F.helper(buf)` / `buf = helper(buf, recv.F)` where helper is a function of the
+// module of the shape 'statements, then return of its buffer parameter': its statements are read as if they
+// stood here, with the buffer parameter standing for the buffer and the other operands for the caller's
+// expressions.
+func (lc *layoutCtx) foldEncoderHelper(s *ast.AssignStmt, call *ast.CallExpr, out *[]string, positional map[int64]string) bool {
+	if lc.depth > 3 {
+		return false
+	}
+	var fn *types.Func
+	var recvArg ast.Expr
+	switch f := call.Fun.(type) {
+	case *ast.Ident:
+		fn, _ = lc.info.Uses[f].(*types.Func)
+	case *ast.SelectorExpr:
+		fn, _ = lc.info.Uses[f.Sel].(*types.Func)
+		if fn != nil && fn.Type().(*types.Signature).Recv() != nil {
+			recvArg = f.X
+		}
+	}
+	if fn == nil || fn.Pkg() == nil || fn.Pkg().Path() != modPath || lc.isBE16Append(fn) {
+		return false
+	}
+	bufAt := -1
+	for i, a := range call.Args {
+		if lc.obj(a) == lc.buf {
+			if bufAt >= 0 {
+				return false
+			}
+			bufAt = i
+		}
+	}
+	if bufAt < 0 {
+		return false
+	}
+	var fd *ast.FuncDecl
+	if recvArg != nil {
+		if n := namedOf(fn.Type().(*types.Signature).Recv().Type()); n != nil {
+			fd = findMethodDecl(lc.pkg, n.Obj().Name(), fn.Name())
+		}
+	} else {
+		fd = findFuncDecl(lc.pkg, fn.Name())
+	}
+	if fd == nil || fd.Body == nil || len(fd.Body.List) < 2 {
+		return false
+	}
+	ret, ok := fd.Body.List[len(fd.Body.List)-1].(*ast.ReturnStmt)
+	if !ok || len(ret.Results) != 1 {
+		return false
+	}
+	for _, st := range fd.Body.List[:len(fd.Body.List)-1] {
+		found := false
+		ast.Inspect(st, func(n ast.Node) bool {
+			if _, isRet := n.(*ast.ReturnStmt); isRet {
+				found = true
+			}
+			return !found
+		})
+		if found {
+			return false
+		}
+	}
+	var params []*ast.Ident
+	for _, f := range fd.Type.Params.List {
+		params = append(params, f.Names...)
+	}
+	if len(params) != len(call.Args) {
+		return false
+	}
+	if lc.exprAlias == nil {
+		lc.exprAlias = map[types.Object]ast.Expr{}
+	}
+	bindExpr := func(po types.Object, arg ast.Expr) bool {
+		arg = unparen(arg)
+		if _, isField := lc.fieldOfRecv(arg); isField {
+			lc.exprAlias[po] = arg
+			return true
+		}
+		if ao := lc.obj(arg); ao != nil {
+			lc.setAlias(po, ao)
+			return true
+		}
+		_, isConst := constIntExpr(lc.info, arg)
+		return isConst
+	}
+	if recvArg != nil {
+		if len(fd.Recv.List) != 1 || len(fd.Recv.List[0].Names) != 1 || !bindExpr(lc.info.Defs[fd.Recv.List[0].Names[0]], recvArg) {
+			return false
+		}
+	}
+	for i, pid := range params {
+		po := lc.info.Defs[pid]
+		if i == bufAt {
+			lc.setAlias(po, lc.buf)
+			continue
+		}
+		if !bindExpr(po, call.Args[i]) {
+			return false
+		}
+	}
+	if lc.obj(ret.Results[0]) != lc.buf {
+		return false
+	}
+	lc.depth++
+	lc.encodeStmts(fd.Body.List[:len(fd.Body.List)-1], out, positional)
+	lc.depth--
+	return true
+}
+
 // subEncoder summarises a nested MarshalBinary: Version -> nib, Header -> sub:Header.
 func (lc *layoutCtx) subEncoder(typeName, field string) string {
 	if typeName == "Version" {
@@ -680,6 +802,9 @@ func (lc *layoutCtx) subEncoder(typeName, field string) string {
 					return "sublayout:nib:" + hi.Sel.Name + "/" + lo.Sel.Name
 				}
 			}
+		}
+		if it, ok := versionEncoderSSA(lc.p); ok {
+			return "sublayout:" + it
 		}
 		lc.errs = append(lc.errs, "Version.MarshalBinary is not []byte{Major<<4 | Minor}")
 		return "sublayout:?"
@@ -801,18 +926,18 @@ func itemWidth(it string) int64 {
 // decoders
 
 type decState struct {
-	madeWith map[types.Object]types.Object // local slice -> the variable giving its size in make()
-	elemListVar map[types.Object]string // local list of elements read by cursor.string(len_i): the length list's placeholder
-	lc        *layoutCtx
-	fixed     map[int64]string // absolute offset -> item (value bound later)
-	cursorAt  int64
-	cursor    bool
-	seq       []string                // cursor-ordered items with placeholders "len8:$var" etc.
-	lenVar    map[types.Object]string // length variable -> placeholder id
-	bindings  map[string]string       // placeholder id -> field
-	listVar   map[types.Object]string // slice of lengths -> placeholder id of the each-len item
-	countVar  map[types.Object]string
-	cursorObj types.Object
+	madeWith    map[types.Object]types.Object // local slice -> the variable giving its size in make()
+	elemListVar map[types.Object]string       // local list of elements read by cursor.string(len_i): the length list's placeholder
+	lc          *layoutCtx
+	fixed       map[int64]string // absolute offset -> item (value bound later)
+	cursorAt    int64
+	cursor      bool
+	seq         []string                // cursor-ordered items with placeholders "len8:$var" etc.
+	lenVar      map[types.Object]string // length variable -> placeholder id
+	bindings    map[string]string       // placeholder id -> field
+	listVar     map[types.Object]string // slice of lengths -> placeholder id of the each-len item
+	countVar    map[types.Object]string
+	cursorObj   types.Object
 }
 
 // cursorCall: e is cursor.<m>(args) ; returns method name and args.
@@ -1364,6 +1489,9 @@ func versionDecoderItem(lc *layoutCtx) string {
 		}
 	}
 	if hi == "" || lo == "" {
+		if it, ok := versionDecoderSSA(lc.p); ok {
+			return it
+		}
 		return "?"
 	}
 	return "nib:" + hi + "/" + lo
